@@ -244,6 +244,19 @@ def p_queries(s, n):
     return ok, f"shape={roi_shape(s)} empty={roi_is_empty(s)} full={roi_is_full(s, n)} center={roi_center(s)} X[s]={sel.tolist()}"
 
 
+def p_full_nd(roi, shape):
+    """fullness of an N-D roi of in-range slices (None or 0<=a<=b<=n) and in-range integer indices (-n<=i<n)
+    against the size of the numpy selection"""
+    from odc.geo.roi import roi_is_full
+    roi = tuple(roi) if isinstance(roi, (tuple, list)) else roi
+    shape = tuple(shape) if isinstance(shape, (tuple, list)) else shape
+    X = np.zeros(shape if isinstance(shape, tuple) else (shape,), dtype="uint8")
+    sel = X[roi]
+    want = bool(np.size(sel) == X.size)
+    got = roi_is_full(roi, shape)
+    return got is want, f"roi_is_full={got!r}, numpy selects {np.size(sel)} of {X.size} elements"
+
+
 def p_pad(s, pad, n):
     """any int / slice index (negative, open-ended): the padded region is the selection grown by pad, clamped"""
     from odc.geo.roi import roi_pad
@@ -303,7 +316,7 @@ def p_points(pts, ny, nx, padding, align):
 
 
 PREDICATES = {"norm": p_norm, "intersect3": p_intersect3, "queries": p_queries, "pad": p_pad,
-              "scale": p_scale, "points": p_points}
+              "scale": p_scale, "points": p_points, "full_nd": p_full_nd}
 
 
 def search(out, tier):
@@ -334,6 +347,18 @@ def search(out, tier):
         inr = [slice(a, b) for a in range(0, n + 1) for b in range(a, n + 1)]
         for s in inr:
             run("queries", s, n)
+        if n > 0:
+            # integer indices (negative too) alone and inside N-D tuples
+            for i in range(-n, n):
+                run("full_nd", i, n)
+                run("full_nd", (i,), (n,))
+            items = [slice(None), slice(0, n), slice(0, None), slice(None, n), slice(0, max(n - 1, 0)), slice(1, n)] + list(range(-n, n))
+            for nd in (2, 3):
+                combos = list(itertools.product(items, repeat=nd))
+                for roi in (combos if len(combos) <= 150 else rng.sample(combos, 150)):
+                    for shape in ((n,) * nd, tuple(rng.choice([n, n + 1, 1]) if isinstance(r, slice) and r.stop is None or r == slice(None)
+                                                   else n for r in roi)):
+                        run("full_nd", roi, shape)
         for s in list(all_slices(n, ext=1)) + list(range(-n, n)):
             for pad in (0, 1, 3):
                 run("pad", s, pad, n)
